@@ -1066,6 +1066,14 @@ def _check_results(case, ctx):
                 **_flags([sp.parameters, res_objs], unp_arrays))
 
     embed = list(case["embed"])
+    # file names are bounded by the file system (255 bytes per component):
+    # embedded parameters are dropped until the longest derived name fits
+    while embed and not tags["has_unnameable_array_param"] and len(
+            os.path.basename(s.get_filename_with_replaced_params(
+                _template(embed, ".pickle.tmp", "gen2_res_pickle_noext"))
+            ).encode("utf-8", "replace")) > 200:
+        embed.pop()
+        ctx.label("results:embedded_name_shortened")
     run = Run()
     tmp = tempfile.mkdtemp(prefix="vpbt_c17_")
     tpl_plain = _template(embed, ".json")
